@@ -77,6 +77,11 @@ def replay(case):
     except Exception as e:  # noqa
         return {"ok": False, "problems": [f"well-formed input rejected: {type(e).__name__}: {e}"]}
     got = {w.qualified_name for w in d.disqualification}
+    if case["entry"] == "series":
+        # from_series trims each series to its first / last valid reading and keeps the common span (documented behaviour of that entry point)
+        lo = max(obs.first_valid_index(), temp.first_valid_index())
+        hi = min(obs.last_valid_index(), temp.last_valid_index())
+        obs, temp = obs.loc[lo:hi], temp.loc[lo:hi]
     exp, degenerate = expected(case, obs, temp)
     if not degenerate and got != exp:
         bad.append(f"disqualifications {sorted(x.replace(P, '') for x in got)} but the criteria give {sorted(x.replace(P, '') for x in exp)}")
